@@ -449,7 +449,7 @@ func byFilterWord(s string) bool {
 
 func checkAdminHandlerTable(c *Ctx, rule string) {
 	p := c.P
-	serve := p.Func("admin", "(*Server).ServeHTTP")
+	serve := p.Orig(p.Func("admin", "(*Server).ServeHTTP")) // the dispatch table as written: each case calls its handler
 	if serve == nil {
 		c.Fail(rule, "admin.ServeHTTP", "", "anchor not found")
 		return
